@@ -17,8 +17,9 @@ func init() {
 			"the set of 'return failure' points of the URL, host, opaque-host, IPv4 and IPv6 parsers, each really aborting (SM-failpoints)",
 			"percent-encode sets, ASCII classes, forbidden host/domain code points, special schemes, dot-segment literals, whitespace sets equal the standard's (TAB-*)",
 			"which encode set each component writer uses (TAB-component); strconv never sees unvalidated text; exactly one bracket pair is stripped (FLOW-strconv, FLOW-brackets)",
+			"the IPv6 serializer prints the standard's pieces, separators and '::' for each of the 256 zero/non-zero patterns of the pieces (TAB-ipv6ser)",
 		},
-		NotDecided:  []string{"per-character behaviour inside a state beyond these facts", "IPv4/IPv6 arithmetic and serialisation", "path shortening details and drive-letter quirks", "IDNA mapping"},
+		NotDecided:  []string{"per-character behaviour inside a state beyond these facts", "IPv4/IPv6 arithmetic, the hex text of a piece", "path shortening details and drive-letter quirks", "IDNA mapping"},
 		Assumptions: append([]string{"/verif/spec/basecopies.json, failpoints.json, sets.json are faithful transcriptions of the standard's snapshot"}, commonAssumptions...)})
 	describe(&PropertyDoc{ID: "C02",
 		Explanation: "Panic-freedom and termination as static obligations over every reachable construct that can panic or loop, plus the URL-or-error contract, for all inputs, configurations and histories (no rule mentions them).",
@@ -30,9 +31,9 @@ func init() {
 		NotDecided:  []string{"stack/heap exhaustion", "panics inside dependencies on valid arguments", "the hand-proved invariants of /verif/tables/index.json (listed as assumptions)"},
 		Assumptions: commonAssumptions})
 	describe(&PropertyDoc{ID: "C03",
-		Explanation: "Two structural necessary conditions of serialize-then-parse identity.",
-		Decides:     []string{"no default component set leaves unencoded a code point that would end, or be trimmed from, that component on re-parsing (TAB-closure)", "every setter path that nulls query or fragment strips an opaque path's trailing spaces when both are null (PAIR-strip)"},
-		NotDecided:  []string{"the round trip itself: host serializers as fixed points of the host parser, the '/.' guard, IDNA (http://a≠b/), setter histories"},
+		Explanation: "Structural necessary conditions of serialize-then-parse identity.",
+		Decides:     []string{"no default component set leaves unencoded a code point that would end, or be trimmed from, that component on re-parsing (TAB-closure)", "every setter path that nulls query or fragment strips an opaque path's trailing spaces when both are null (PAIR-strip)", "the IPv6 serializer omits exactly the first longest run of two or more zero pieces and prints every other piece (TAB-ipv6ser)"},
+		NotDecided:  []string{"the round trip itself: the IPv4 serializer and the host parser as inverses, the '/.' guard, IDNA (http://a≠b/), setter histories"},
 		Assumptions: commonAssumptions})
 	describe(&PropertyDoc{ID: "C04",
 		Explanation: "Structural necessary conditions of the URL-record invariants in every reachable state.",
@@ -56,8 +57,8 @@ func init() {
 		Assumptions: commonAssumptions})
 	describe(&PropertyDoc{ID: "C08",
 		Explanation: "Structural facts of IPv6 host acceptance.",
-		Decides:     []string{"exactly the first and last byte are removed from a host tested to start with '[' and end with ']' (FLOW-brackets)", "every validation error of the IPv6 parser is an aborting failure; the 13 failure points are the standard's (SM-failpoints)", "multiply-and-add accumulators of the address parser are bounded inside their loops: they cannot wrap (FLOW-accum)"},
-		NotDecided:  []string{"piece placement, compression choice, canonical text"},
+		Decides:     []string{"exactly the first and last byte are removed from a host tested to start with '[' and end with ']' (FLOW-brackets)", "every validation error of the IPv6 parser is an aborting failure; the 13 failure points are the standard's (SM-failpoints)", "multiply-and-add accumulators of the address parser are bounded inside their loops: they cannot wrap (FLOW-accum)", "hex digit value functions are exact on 0-9, a-f, A-F (TAB-hexval)", "the serializer uses a piece only to compare it with 0 and to format it in base 16; for each of the 256 zero/non-zero patterns its output has the standard's pieces, separators and '::' (TAB-ipv6ser, abstract interpretation)"},
+		NotDecided:  []string{"piece placement by the parser", "that the hex text of a piece is minimal lower case (strconv's contract)"},
 		Assumptions: commonAssumptions})
 	describe(&PropertyDoc{ID: "C09",
 		Explanation: "Order and coverage of the domain pipeline.",
